@@ -1,0 +1,50 @@
+//! Verification hooks. Compiled only with `--cfg substrate_fixed_verif`; the crate is
+//! unchanged without that flag. Used by the checks under /verif (property C17: bounded
+//! work of the math functions; C16: cut point after argument reduction in `sin`).
+
+use core::sync::atomic::{AtomicU64, Ordering};
+
+static COUNT: AtomicU64 = AtomicU64::new(0);
+static LIMIT: AtomicU64 = AtomicU64::new(u64::MAX);
+static OBSERVED_HI: AtomicU64 = AtomicU64::new(0);
+static OBSERVED_LO: AtomicU64 = AtomicU64::new(0);
+static OBSERVED_SET: AtomicU64 = AtomicU64::new(0);
+
+/// Resets the loop-iteration counter and sets the budget after which `tick` panics.
+pub fn reset(limit: u64) {
+    COUNT.store(0, Ordering::Relaxed);
+    LIMIT.store(limit, Ordering::Relaxed);
+    OBSERVED_SET.store(0, Ordering::Relaxed);
+}
+
+/// Number of loop iterations of `transcendental.rs` since the last `reset`.
+pub fn read() -> u64 {
+    COUNT.load(Ordering::Relaxed)
+}
+
+/// Called at the top of every loop body of `transcendental.rs`.
+pub fn tick() {
+    let count = COUNT.load(Ordering::Relaxed) + 1;
+    COUNT.store(count, Ordering::Relaxed);
+    if count > LIMIT.load(Ordering::Relaxed) {
+        panic!("iteration budget exceeded");
+    }
+}
+
+/// Records the bits of the reduced angle in `sin` (cut point).
+pub fn observe(bits: i128) {
+    OBSERVED_HI.store((bits >> 64) as u64, Ordering::Relaxed);
+    OBSERVED_LO.store(bits as u64, Ordering::Relaxed);
+    OBSERVED_SET.store(1, Ordering::Relaxed);
+}
+
+/// The value recorded by the last `observe` since `reset`, if any.
+pub fn observed() -> Option<i128> {
+    if OBSERVED_SET.load(Ordering::Relaxed) != 0 {
+        let hi = OBSERVED_HI.load(Ordering::Relaxed) as u128;
+        let lo = OBSERVED_LO.load(Ordering::Relaxed) as u128;
+        Some(((hi << 64) | lo) as i128)
+    } else {
+        None
+    }
+}
